@@ -7,7 +7,7 @@ import (
 	"errors"
 	"fmt"
 	"io"
-	"math"
+	"math/big"
 	"sort"
 	"strconv"
 	"strings"
@@ -377,7 +377,7 @@ intLiteral
 	{
 		// remove separator "_"s
 		intStr := strings.Replace($1.Literal, "_", "", -1)
-		n, _ := strconv.ParseInt(intStr, 10, 64)
+		n := parseIntLiteral(yylex, intStr, 10)
 		$$ = &ast.IntLiteral{
 			Token: $1.Literal,
 			Value: n,
@@ -390,7 +390,7 @@ intLiteral
 		lit := strings.Replace($1.Literal, "_", "", -1)
 		// remove prefix "0x"
 		intStr := lit[2:]
-		n, _ := strconv.ParseInt(intStr, 16, 64)
+		n := parseIntLiteral(yylex, intStr, 16)
 		$$ = &ast.IntLiteral{
 			Token: $1.Literal,
 			Value: n,
@@ -403,7 +403,7 @@ intLiteral
 		lit := strings.Replace($1.Literal, "_", "", -1)
 		// remove prefix "0o"
 		intStr := lit[2:]
-		n, _ := strconv.ParseInt(intStr, 8, 64)
+		n := parseIntLiteral(yylex, intStr, 8)
 		$$ = &ast.IntLiteral{
 			Token: $1.Literal,
 			Value: n,
@@ -416,7 +416,7 @@ intLiteral
 		lit := strings.Replace($1.Literal, "_", "", -1)
 		// remove prefix "0b"
 		intStr := lit[2:]
-		n, _ := strconv.ParseInt(intStr, 2, 64)
+		n := parseIntLiteral(yylex, intStr, 2)
 		$$ = &ast.IntLiteral{
 			Token: $1.Literal,
 			Value: n,
@@ -427,15 +427,9 @@ intLiteral
 	{
 		// remove separator "_"s
 		lit := strings.Replace($1.Literal, "_", "", -1)
-		// NOTE: ToLower is nesessary (to split by both e and E)
-		toks := strings.Split(strings.ToLower(lit), "e")
-		// NOTE: cast float to deal with minus exp (i.e. `100e-2 == 1`)
-		val, _ := strconv.ParseFloat(toks[0], 64)
-		// NOTE: cannot use ParseInt (math.Pow requires float)
-		exp, _ := strconv.ParseFloat(toks[1], 64)
 		$$ = &ast.IntLiteral{
 			Token: $1.Literal,
-			Value: int64(val * math.Pow(10, exp)),
+			Value: parseExpIntLiteral(yylex, lit),
 			Src: yylex.(*Lexer).Source,
 		}
 	}
@@ -445,7 +439,7 @@ floatLiteral
 	{
 		// remove separator "_"s
 		floatStr := strings.Replace($1.Literal, "_", "", -1)
-		n, _ := strconv.ParseFloat(floatStr, 64)
+		n := parseFloatLiteral(yylex, floatStr)
 		$$ = &ast.FloatLiteral{
 			Token: $1.Literal,
 			Value: n,
@@ -456,13 +450,9 @@ floatLiteral
 	{
 		// remove separator "_"s
 		lit := strings.Replace($1.Literal, "_", "", -1)
-		// NOTE: ToLower is nesessary (to split by both e and E)
-		toks := strings.Split(strings.ToLower(lit), "e")
-		val, _ := strconv.ParseFloat(toks[0], 64)
-		exp, _ := strconv.ParseFloat(toks[1], 64)
 		$$ = &ast.FloatLiteral{
 			Token: $1.Literal,
-			Value: float64(val * math.Pow(10, exp)),
+			Value: parseFloatLiteral(yylex, lit),
 			Src: yylex.(*Lexer).Source,
 		}
 	} 
@@ -1144,7 +1134,7 @@ strLiteral
 	{
 		// unquote escape sequences here
 		// NOTE: backquotes are unwraped in Unquote
-		unquoted, _ := strconv.Unquote($1.Literal)
+		unquoted := unquoteStrLiteral(yylex, $1.Literal)
 		$$ = &ast.StrLiteral{
 			Token: $1.Literal,
 			Value: unquoted,
@@ -1246,7 +1236,7 @@ embeddedStr
 	{
 		// unquote escape sequences here
 		// NOTE: doublequotes are unwraped in Unquote
-		unquoted, _ := strconv.Unquote("\""+$2.Literal[1:])
+		unquoted := unquoteStrLiteral(yylex, "\""+$2.Literal[1:])
 		$$ = &ast.EmbeddedStr{
 			Token: $1.Token,
 			Former: $1,
@@ -1260,7 +1250,7 @@ formerStrPiece
 	{
 		// unquote escape sequences here
 		// NOTE: doublequotes are unwraped in Unquote
-		unquoted, _ := strconv.Unquote("\""+$2.Literal[1:len($2.Literal)-2]+"\"")
+		unquoted := unquoteStrLiteral(yylex, "\""+$2.Literal[1:len($2.Literal)-2]+"\"")
 		$$ = &ast.FormerStrPiece{
 			Token: $1.Token,
 			Former: $1,
@@ -1272,7 +1262,7 @@ formerStrPiece
 	{
 		// unquote escape sequences here
 		// NOTE: doublequotes are unwraped in Unquote
-		unquoted, _ := strconv.Unquote($1.Literal[:len($1.Literal)-2]+"\"")
+		unquoted := unquoteStrLiteral(yylex, $1.Literal[:len($1.Literal)-2]+"\"")
 		$$ = &ast.FormerStrPiece{
 			Token: $1.Literal,
 			Former: nil,
@@ -2152,6 +2142,64 @@ type Lexer struct {
 	program      ast.Node
 	Source		 *ast.Source
 	curRule		 string
+}
+
+// parseIntLiteral converts digits (separators removed) to int64.
+// A literal that cannot be represented is a syntax error.
+func parseIntLiteral(yylex yyLexer, digits string, base int) int64 {
+	n, err := strconv.ParseInt(digits, base, 64)
+	if err != nil {
+		yylex.Error(fmt.Sprintf("int literal %s cannot be represented: %s", digits, err.Error()))
+	}
+	return n
+}
+
+// parseExpIntLiteral converts an exponential int literal (separators removed) exactly.
+func parseExpIntLiteral(yylex yyLexer, lit string) int64 {
+	// NOTE: ToLower is nesessary (to split by both e and E)
+	toks := strings.Split(strings.ToLower(lit), "e")
+	val, ok := new(big.Int).SetString(toks[0], 10)
+	exp, err := strconv.ParseInt(toks[1], 10, 64)
+	if !ok || err != nil || exp > 400 || exp < -400 {
+		// NOTE: non-zero int64 cannot have such a large exponent
+		if ok && (val.Sign() == 0 || (err == nil && exp < 0 && len(toks[0]) < 400)) {
+			return 0
+		}
+		yylex.Error(fmt.Sprintf("int literal %s cannot be represented", lit))
+		return 0
+	}
+
+	if exp >= 0 {
+		val.Mul(val, new(big.Int).Exp(big.NewInt(10), big.NewInt(exp), nil))
+	} else {
+		// NOTE: minus exp (i.e. `100e-2 == 1`), fractions are truncated
+		val.Quo(val, new(big.Int).Exp(big.NewInt(10), big.NewInt(-exp), nil))
+	}
+
+	if !val.IsInt64() {
+		yylex.Error(fmt.Sprintf("int literal %s cannot be represented", lit))
+	}
+	return val.Int64()
+}
+
+// parseFloatLiteral converts a float literal (separators removed) to the nearest float64.
+// A literal that cannot be represented is a syntax error.
+func parseFloatLiteral(yylex yyLexer, lit string) float64 {
+	n, err := strconv.ParseFloat(lit, 64)
+	if err != nil {
+		yylex.Error(fmt.Sprintf("float literal %s cannot be represented: %s", lit, err.Error()))
+	}
+	return n
+}
+
+// unquoteStrLiteral decodes escape sequences in a doublequoted str.
+// An undefined escape sequence is a syntax error.
+func unquoteStrLiteral(yylex yyLexer, quoted string) string {
+	unquoted, err := strconv.Unquote(quoted)
+	if err != nil {
+		yylex.Error(fmt.Sprintf("str literal %s contains an invalid escape sequence", quoted))
+	}
+	return unquoted
 }
 
 func tokenTypes() []simplexer.TokenType{
